@@ -67,7 +67,7 @@ pub fn exec(case: &Value) -> Vec<Value> {
         return vec![one(get_str(case, "as"), get_str(case, "bs"), get_bool(case, "g"), swap, sid)];
     }
     let mut out = vec![];
-    for (alpha, g) in [("ascii", false), ("multi", true), ("cluster", true), ("cluster", false), ("share", true)] {
+    for (alpha, g) in [("ascii", false), ("multi", true), ("cluster", true), ("cluster", false), ("share", true), ("ws2", true)] {
         let al = alphabet(alpha);
         let a = concretise(&case["a"], &al);
         let b = concretise(&case["b"], &al);
